@@ -641,16 +641,61 @@ func runC18(c *Ctx) {
 			}}
 			e.Run(body)
 			c.Paths += len(e.Paths)
+			// the channels are told apart by their element type: error / Impl / struct{}
+			chanKind := func(ev *Ev) string {
+				if len(ev.Args) == 0 {
+					return ""
+				}
+				ch, ok := ev.Args[0].V.Type().Underlying().(*types.Chan)
+				if !ok {
+					return ""
+				}
+				switch {
+				case types.Identical(ch.Elem(), types.Universe.Lookup("error").Type()):
+					return "err"
+				case isNamed(ch.Elem(), "client", "Impl"):
+					return "impl"
+				}
+				if st, ok := ch.Elem().Underlying().(*types.Struct); ok && st.NumFields() == 0 {
+					return "done"
+				}
+				return ""
+			}
+			// does getFirst end on the number of members of the collected error list?
+			byMembers := false
+			instrs(getFirst, func(in ssa.Instruction) {
+				if b, ok := in.(*ssa.BinOp); ok && (b.Op == token.EQL || b.Op == token.GEQ) {
+					for _, pr := range [][2]ssa.Value{{b.X, b.Y}, {b.Y, b.X}} {
+						la, ok1 := lenArg(pr[0])
+						lb, ok2 := lenArg(pr[1])
+						if ok1 && ok2 && lb == ssa.Value(param(getFirst, 1)) {
+							if call, ok := la.(*ssa.Call); ok && strings.HasSuffix(calleeName(&call.Call), ".Errors") {
+								byMembers = true
+							}
+						}
+					}
+				}
+			})
 			for i := range e.Paths {
 				p := &e.Paths[i]
 				l := p.Labels()
 				ok := false
 				switch {
-				case len(l) == 1 && strings.HasPrefix(l[0], "send:") && strings.Contains(l[0], "errC"):
+				case len(l) == 1 && strings.HasPrefix(l[0], "send:") && chanKind(&p.Trace[0]) == "err":
 					ok = true
-				case len(l) == 1 && strings.HasPrefix(l[0], "select:send:") && strings.Contains(l[0], "implC"):
+					if byMembers {
+						// the list flattens a member that is itself a list: each failure must add exactly one member
+						v := p.Trace[0].Args[1].V
+						if mi, isMI := v.(*ssa.MakeInterface); isMI {
+							v = mi.X
+						}
+						plain := isCallNamed(v, "fmt.Errorf") || isCallNamed(v, "errors.New")
+						c.Check(plain, "C18.getfirst", fnName(body), "a failed client type reports one plain error (one member of the collected list)", P.Pos(posOf(p.Trace[0].In)),
+							"getFirst ends when the list has len(types) members and errlist flattens nested lists: forwarding "+Expr(v)+" unchanged can add more than one member, after which the count never equals len(types) and getFirst blocks")
+					}
+				case len(l) == 1 && strings.HasPrefix(l[0], "select:send:") && chanKind(&p.Trace[0]) == "impl":
 					ok = true
-				case len(l) == 2 && strings.HasPrefix(l[0], "select:recv:") && strings.Contains(l[0], "done") && strings.HasSuffix(l[1], ".Close"):
+				case len(l) == 2 && strings.HasPrefix(l[0], "select:recv:") && chanKind(&p.Trace[0]) == "done" && strings.HasSuffix(l[1], ".Close"):
 					ok = true
 				}
 				c.Check(ok, "C18.getfirst", fnName(body), "error on errC, or Impl offered / closed when nobody waits", P.Pos(body.Pos()), "path: "+p.String())
